@@ -2,30 +2,49 @@
 (* Exhaustive model check  Impl(op,k,x,y) satisfies Ref(op,k,x,y)  over all integer kinds x all
    operators x boundary operands (x shift counts of the count kinds), for the register form and
    the constant-operand form of the instructions; exports the case set (inputs only).
-   One TLC state per case; the states are spread over Chunks roots so that the workers share the
+   One TLC state per case, below one root state per (op, k, k2) so that the workers share the
    evaluation.  Run with -continue: every case is evaluated even when some violate the invariant
    (the negative shift count is expected to: model_counterexample in the evidence). *)
 EXTENDS IntALU, Json, FiniteSets, SequencesExt
-CONSTANTS Tier, Chunks
+CONSTANTS Tier
 B(k) == IF Tier = "quick" THEN BQuick(k) ELSE BFull(k)
-CountKinds == IF Tier = "quick" THEN {"int", "int8", "uint8", "uint64"} ELSE Kinds
-ConvTargets(k) == IF Tier = "quick" THEN {"int8", "uint8", "int32", "uint32", "int64", "uint64", "int", "uint16"} ELSE Kinds
+CountKinds == IF Tier = "quick" THEN {"int", "uint8"} ELSE Kinds
+ConvTargets == IF Tier = "quick" THEN {"int8", "uint8", "int32", "uint16", "int64", "uint64"} ELSE Kinds
+CmpOps == IF Tier = "quick" THEN {"eq", "lt", "ge"} ELSE Cmps
 
-BinCases == UNION {{[op |-> o, k |-> k, k2 |-> k, x |-> x, y |-> y] : o \in Arith \cup Cmps, x \in B(k), y \in B(k)} : k \in Kinds}
-ShiftCases == UNION {UNION {{[op |-> o, k |-> k, k2 |-> k2, x |-> x, y |-> y] : o \in Shifts, x \in B(k), y \in Counts(k2, W(k))}
-                            : k2 \in CountKinds} : k \in Kinds}
-UnaryCases == UNION {{[op |-> o, k |-> k, k2 |-> k, x |-> x, y |-> Zero] : o \in Unary, x \in B(k)} : k \in Kinds}
-ConvCases == UNION {UNION {{[op |-> "conv", k |-> k, k2 |-> k2, x |-> x, y |-> Zero] : x \in BFull(k)} : k2 \in ConvTargets(k)} : k \in Kinds}
-CaseSeq == SetToSeq(BinCases \cup ShiftCases \cup UnaryCases \cup ConvCases)
-N == Len(CaseSeq)
-Cases == [i \in 1..N |-> [id |-> i, fam |-> "intalu", op |-> CaseSeq[i].op, k |-> CaseSeq[i].k, k2 |-> CaseSeq[i].k2,
-                          x |-> CaseSeq[i].x, y |-> CaseSeq[i].y]]
+Roots == {[op |-> o, k |-> k, k2 |-> k] : o \in Arith \cup CmpOps \cup Unary, k \in Kinds}
+         \cup {[op |-> o, k |-> k, k2 |-> k2] : o \in Shifts, k \in Kinds, k2 \in CountKinds}
+         \cup {[op |-> "conv", k |-> k, k2 |-> k2] : k \in Kinds, k2 \in ConvTargets}
+Operands(r) ==
+  IF r.op \in Arith \cup Cmps THEN {<<x, y>> : x \in B(r.k), y \in B(r.k)}
+  ELSE IF r.op \in Shifts THEN {<<x, y>> : x \in B(r.k), y \in Counts(r.k2, W(r.k))}
+  ELSE IF r.op \in Unary THEN {<<x, Zero>> : x \in B(r.k)}
+  ELSE {<<x, Zero>> : x \in B(r.k)}
+CaseSet == UNION {{[op |-> r.op, k |-> r.k, k2 |-> r.k2, x |-> xy[1], y |-> xy[2]] : xy \in Operands(r)} : r \in Roots}
+\* the literal form exists only where Go accepts the literal: non-negative (and small) shift count,
+\* non-zero constant divisor
+HasConstForm(cc) == /\ cc.op \notin Unary \cup {"conv"}
+                    /\ ~(cc.op \in Shifts /\ (cc.y.s < 0 \/ Cmp(cc.y, FromInt(65)) > 0))
+                    /\ ~(cc.op \in {"div", "rem"} /\ cc.y.s = 0)
+\* source forms in which the replay driver writes the case: "var" x op y with two variables, "lit" x op LITERAL,
+\* "assign" x op= y, "cond" if x op y {...}
+Forms(cc) == <<"var">> \o (IF HasConstForm(cc) /\ (cc.op \notin Shifts \/ cc.k2 = "int") THEN <<"lit">> ELSE <<>>)
+                       \o (IF cc.op \in Arith \cup Shifts THEN <<"assign">> ELSE <<>>)
+                       \o (IF cc.op \in Cmps THEN <<"cond">> ELSE <<>>)
+Cases == LET CS == SetToSeq(CaseSet) IN
+         [i \in 1..Len(CS) |-> [id |-> i, fam |-> "intalu", op |-> CS[i].op, k |-> CS[i].k, k2 |-> CS[i].k2, x |-> CS[i].x, y |-> CS[i].y,
+                                forms |-> Forms(CS[i])]]
 ASSUME ndJsonSerialize("cases.ndjson", Cases)
+ASSUME \A w \in {8, 16, 32, 64} : PW(w) = Pow2(w) /\ PH(w) = Pow2(w - 1) /\ PQ(w) = Pow2(w \div 2)
+ASSUME \A x \in {FromInt(-129), FromInt(300), Mul(Pow2(63), FromInt(-3)), Add(Pow2(64), FromInt(5)), Mul(Pow2(64), Pow2(63))} :
+         \A w \in {8, 16, 32, 64} : \A sg \in BOOLEAN : WrapW(x, w, sg) = WrapTo(x, w, sg)
 
-VARIABLE ci
-Init == ci \in {-j : j \in 1..Chunks}
-Next == ci < 0 /\ \E i \in 1..N : i % Chunks = (-ci) % Chunks /\ ci' = i
-\* the literal form exists only where Go accepts the literal: non-negative shift count, non-zero constant divisor
-HasConstForm(c) == ~(c.op \in Shifts /\ c.y.s < 0) /\ ~(c.op \in {"div", "rem"} /\ c.y.s = 0)
-ImplMeetsRef == ci > 0 => LET c == CaseSeq[ci] IN CaseOkModel(c, FALSE) /\ (HasConstForm(c) => CaseOkModel(c, TRUE))
+VARIABLES root, c
+Init == root = TRUE /\ c \in {[op |-> r.op, k |-> r.k, k2 |-> r.k2, x |-> Zero, y |-> Zero] : r \in Roots}
+Next == /\ root /\ root' = FALSE
+        /\ \E xy \in Operands(c) : c' = [c EXCEPT !.x = xy[1], !.y = xy[2]]
+\* the register form of every instruction computes what Go prescribes
+ImplMeetsRef == ~root => CaseOkModel(c, FALSE)
+\* the constant-operand form (-Op..., vm.intk) feeds the same number into the same instruction
+ConstFormSame == ~root /\ HasConstForm(c) => Intk(c.y, TRUE) = Intk(c.y, FALSE)
 =============================================================================
